@@ -1,6 +1,100 @@
 package main
 
-import "bufio"
+import (
+	"bufio"
+	"crypto/hmac"
+	"crypto/sha1"
+	"crypto/sha256"
+	"crypto/sha512"
+	"encoding/binary"
+	"fmt"
+	"hash"
+	"runtime"
+	"sort"
+	"strconv"
+	"sync"
+)
 
-// extraCommand: further sub-commands (history / memory / REST / wasm drivers) are added in their own files.
-func extraCommand(args []string, w *bufio.Writer) bool { return false }
+// extraCommand: `extremes <limit>` searches, independently of the library (plain crypto/hmac), counters whose RFC 4226
+// value for the RFC key has an extreme shape — a code that is all zeros but its last digit, or exactly a power of ten —
+// for every hash and every code length 5..10.  The result (regression corpus "extreme outputs") is committed; it only
+// depends on RFC 4226, not on the implementation.  Formatting slips that bite for one value in 10^5..10^10 cannot be
+// found by sampling secrets and counters, but these inputs hit them.
+func extraCommand(args []string, w *bufio.Writer) bool {
+	if len(args) < 1 || args[0] != "extremes" {
+		return false
+	}
+	limit := uint64(300000000)
+	if len(args) > 1 {
+		limit, _ = strconv.ParseUint(args[1], 10, 64)
+	}
+	key := []byte("12345678901234567890")
+	news := []func() hash.Hash{sha1.New, sha256.New, sha512.New}
+	type hit struct {
+		alg, digits int
+		kind       string
+		counter    uint64
+	}
+	var mu sync.Mutex
+	best := map[string]hit{}
+	record := func(h hit) {
+		k := fmt.Sprintf("%d/%d/%s", h.alg, h.digits, h.kind)
+		mu.Lock()
+		if old, ok := best[k]; !ok || h.counter < old.counter {
+			best[k] = h
+		}
+		mu.Unlock()
+	}
+	pow := []uint64{1, 10, 100, 1000, 10000, 100000, 1000000, 10000000, 100000000, 1000000000, 10000000000}
+	workers := runtime.NumCPU()
+	for alg := 0; alg < 3; alg++ {
+		var wg sync.WaitGroup
+		for wk := 0; wk < workers; wk++ {
+			wg.Add(1)
+			go func(wk int) {
+				defer wg.Done()
+				mac := hmac.New(news[alg], key)
+				var buf [8]byte
+				sum := make([]byte, 0, 64)
+				for c := uint64(wk); c < limit; c += uint64(workers) {
+					binary.BigEndian.PutUint64(buf[:], c)
+					mac.Reset()
+					mac.Write(buf[:])
+					sum = mac.Sum(sum[:0])
+					off := sum[len(sum)-1] & 0x0f
+					v := uint64(binary.BigEndian.Uint32(sum[off:off+4]) & 0x7fffffff)
+					for d := 5; d <= 10; d++ {
+						code := v % pow[d]
+						if code < 10 {
+							record(hit{alg, d, "lt10", c})
+						}
+						for k := 1; k < d; k++ {
+							if code == pow[k] {
+								record(hit{alg, d, "pow" + strconv.Itoa(k), c})
+							}
+						}
+					}
+				}
+			}(wk)
+		}
+		wg.Wait()
+	}
+	var hits []hit
+	for _, h := range best {
+		hits = append(hits, h)
+	}
+	sort.Slice(hits, func(i, j int) bool {
+		a, b := hits[i], hits[j]
+		if a.alg != b.alg {
+			return a.alg < b.alg
+		}
+		if a.digits != b.digits {
+			return a.digits < b.digits
+		}
+		return a.kind < b.kind
+	})
+	for _, h := range hits {
+		fmt.Fprintf(w, "%d %d %s %d\n", h.alg, h.digits, h.kind, h.counter)
+	}
+	return true
+}
